@@ -11,16 +11,28 @@ type TemplateWriter interface {
 	WriteString(string) (int, error)
 }
 
+// templateWriter passes what the nodes write on to the caller's writer. The nodes do
+// not look at the result of their writes, so the first error of the caller's writer is
+// remembered here (for the caller) and nothing more is written after it.
 type templateWriter struct {
-	w io.Writer
+	w   io.Writer
+	err error
 }
 
 func (tw *templateWriter) WriteString(s string) (int, error) {
-	return tw.w.Write([]byte(s))
+	return tw.Write([]byte(s))
 }
 
 func (tw *templateWriter) Write(b []byte) (int, error) {
-	return tw.w.Write(b)
+	if tw.err != nil {
+		return 0, tw.err
+	}
+	n, err := tw.w.Write(b)
+	if err == nil && n < len(b) {
+		err = io.ErrShortWrite
+	}
+	tw.err = err
+	return n, err
 }
 
 type Template struct {
@@ -150,7 +162,12 @@ func (tpl *Template) execute(context Context, writer TemplateWriter) error {
 }
 
 func (tpl *Template) newTemplateWriterAndExecute(context Context, writer io.Writer) error {
-	return tpl.execute(context, &templateWriter{w: writer})
+	tw := &templateWriter{w: writer}
+	if err := tpl.execute(context, tw); err != nil {
+		return err
+	}
+	// (the error of the caller's writer, if it failed)
+	return tw.err
 }
 
 func (tpl *Template) newBufferAndExecute(context Context) (*bytes.Buffer, error) {
